@@ -7,7 +7,11 @@
   fix|n|cc|tc                      -> _fix_copy_chunks on one axis
   getitem|<grids>|<coords>         -> lo:hi,lo:hi | IndexError
   writes|<stored>|<write>|<coords> -> IndexError | "-" | k,k:W;k,k:P;...   (W whole, P partial = read-modify-write)
-  region|nt,ct,a,b,cs;...          -> aligned=<bool> tasks=<j,j;j,j|-> ok=<bool>
+  region|nt,ct,a,b,cs;...          -> aligned=<bool> tasks=<j,j;j,j|-> ok=<bool>            (OLD variant of the region branch)
+  store|n,src,tgt;...              -> guard=<bool>      (the guard of _store_array for an existing, unsharded target)
+  slice|n|start|stop               -> a:b               (slice(start, stop).indices(n)[:2]; "N" = None)
+  region2|nt,ct,start,stop,step,cs;...   ("N" = None)
+        -> refused | accepted a:b,a:b tasks=<j,j;j,j|-> ok=<bool> okold=<bool>     (repaired region branch; okold = before ba97b91)
 -/
 import CubedModel.Model.Proto
 import CubedModel.Model.Grid
@@ -22,6 +26,9 @@ def showNats' (l : List Nat) : String := if l.isEmpty then "-" else showNats l
 
 def showIvs (l : List (Nat × Nat)) : String :=
   if l.isEmpty then "-" else ",".intercalate (l.map fun p => s!"{p.1}:{p.2}")
+
+def parseOptInt (s : String) : Option Int :=
+  if s.trimAscii.toString == "N" then none else parseInt? s
 
 def handle (line : String) : String :=
   match line.splitOn "|" with
@@ -56,6 +63,34 @@ def handle (line : String) : String :=
     let ok := ts.all (regionTaskOK axes)
     let tss := if ts.isEmpty then "-" else ";".intercalate (ts.map showNats)
     s!"aligned={al} tasks={tss} ok={ok}"
+  | ["store", axes] =>
+    let axes : List StoreReq := (axes.splitOn ";").filterMap fun a =>
+      match parseNats a with
+      | [n, src, tgt] => some ⟨n, src, tgt, 1⟩
+      | _ => none
+    s!"guard={storeGuard axes}"
+  | ["slice", n, a, b] =>
+    match parseNat? n with
+    | some n => let r := sliceIndices n ⟨parseOptInt a, parseOptInt b, none⟩; s!"{r.1}:{r.2}"
+    | none => "bad-request"
+  | ["region2", axes] =>
+    let reqs : List (Option (Nat × Nat × SliceReq × Nat)) := (axes.splitOn ";").map fun a =>
+      match a.splitOn "," with
+      | [nt, ct, st, sp, stp, cs] =>
+        match parseNat? nt, parseNat? ct, parseNat? cs with
+        | some nt, some ct, some cs => some (nt, ct, ⟨parseOptInt st, parseOptInt sp, parseOptInt stp⟩, cs)
+        | _, _, _ => none
+      | _ => none
+    if reqs.any Option.isNone then "bad-request" else
+    let reqs := reqs.filterMap id
+    let acc := reqs.map fun (nt, ct, sl, cs) => (regionAccept nt ct sl).map fun ab => (⟨nt, ct, ab.1, ab.2, cs⟩ : RegionAxis)
+    if acc.any Option.isNone then "refused" else
+    let axes := acc.filterMap id
+    let ts := regionTasks axes
+    let ok := ts.all (regionTaskOK (axes.map RegionAxis.effective))
+    let okold := ts.all (regionTaskOK axes)
+    let tss := if ts.isEmpty then "-" else ";".intercalate (ts.map showNats)
+    s!"accepted {showIvs (axes.map fun r => (r.a, r.b))} tasks={tss} ok={ok} okold={okold}"
   | _ => "bad-request"
 
 def main : IO Unit := Cubed.Proto.runDriver handle
